@@ -1,8 +1,11 @@
 /* Harnesses for the C19 unit (one per function under contract), ghost definitions, reachability covers. */
 int  ghost_threw;
-int  ghost_steps;
+unsigned ghost_steps;
+int  ghost_stepped;
 Real ghost_t0;
-int  ghost_steps0;
+unsigned ghost_steps0;
+Real ghost_adv0;
+int  ghost_scs0;
 Real ghost_stepTo_report, ghost_stepTo_sched; int ghost_stepTo_calls;
 
 /* wrappers that carry the separately named strong clauses (see contracts.h); they only forward */
